@@ -133,10 +133,12 @@ def random_runs(ctx, profile, runs, seed):
 
 def known_finding_runs(ctx):
     """dedicated reproductions of the recorded findings (reported through ctx.violation)"""
-    # C15-a: the sstable writer accepts the empty key twice (any block length, any value type)
-    a = [{"tag": "kf-a", "keys": [[], []], "vk": "u64", "block_len": 4000, "impls": ["sstable"], "ops": [{"op": "stream"}]}]
-    _, ok, bad = execute(ctx, a, "kf_a", kf_tag="sstable-duplicate-empty-key")
-    ctx.cov.setdefault("known_finding_runs", {})["C15-a sstable-duplicate-empty-key"] = "reproduced" if bad else "NOT reproduced"
+    # C15-a (repaired in /repo, 7a772cc35): the sstable writer accepted the empty key twice.  Kept as
+    # regression cases without a finding tag: a silently accepted repetition is a violation again.
+    a = [{"tag": "regress-C15-a", "keys": ks, "vk": vk, "block_len": bl, "impls": ["sstable"], "ops": [{"op": "stream"}]}
+         for ks in ([[], []], [[], [], [97]]) for vk in ("u64", "void") for bl in (1, 4000)]
+    _, ok, bad = execute(ctx, a, "regress_c15a")
+    ctx.cov.setdefault("known_finding_runs", {})["C15-a sstable-duplicate-empty-key (repaired)"] = "refused" if not bad else "ACCEPTED AGAIN"
     # C15-b: Streamer::term_ord() of an automaton search that skips blocks
     b = [{"tag": "kf-b", "keys": [[97], [98], [99], [100]], "vk": "u64", "block_len": 1, "impls": ["sstable"],
           "ops": [{"op": "search", "aut": {"t": "prefix", "p": [99]}, "lo": ["unb", []], "hi": ["unb", []]}]}]
